@@ -31,6 +31,10 @@ fn main() {
             Some(i) => (&line[..i], &line[i + 1..]),
             None => (line, ""),
         };
+        // every request runs under a parser step budget (hook), so a parser that stops making
+        // progress panics with a marker instead of hanging or exhausting memory
+        #[cfg(feature = "verif")]
+        syntax::verif_hooks::reset(1000 * (rest.len() as u64 + 1) + 100_000);
         let res = std::panic::catch_unwind(std::panic::AssertUnwindSafe(|| dispatch(cmd, rest)));
         match res {
             Ok(s) => writeln!(out, "{}", s).unwrap(),
@@ -56,6 +60,7 @@ fn dispatch(cmd: &str, rest: &str) -> String {
         "parse" => syn::parse(&util::unhex_str(rest), false),
         "parseh" => syn::parse(&util::unhex_str(rest), true),
         "oracle01" => syn::oracle01(&util::unhex_str(rest)),
+        "steps" => syn::steps(&util::unhex_str(rest)),
         "li" => li::run(rest),
         "ws" => ws::run(rest),
         _ => format!("bad-cmd {}", cmd),
